@@ -381,6 +381,61 @@ def obs_msg(m, schema, ci):
     return " ".join(["m %d %d %d" % (ci, int(ow), md.ngroups)] + cur + [str(len(md.fields))] + items)
 
 
+def obsp_value(f, v, schema):
+    """presence-level observation of one attribute value (see Driver/Tok.lean obsPVal)"""
+    if f.ty == "map":
+        parts = ["D %d" % len(v)]
+        for k, x in v.items():
+            parts.append(obs_scalar(f.mapK, k))
+            if f.mapV == "message":
+                parts.append(obsp_kind(f.mapVKind, x, schema))
+            else:
+                parts.append(obs_scalar(f.mapV, x))
+        return " ".join(parts)
+
+    def one(x):
+        if f.ty == "message":
+            if f.wraps:
+                return obs_scalar(f.wraps, x)
+            return obsp_kind(f.kind, x, schema)
+        return obs_scalar(f.ty, x)
+    if f.repeated:
+        return " ".join(["l %d" % len(v)] + [one(x) for x in v])
+    if (f.ty == "message" and not f.wraps and f.kind.startswith("u") and v is not None
+            and not betterproto.serialized_on_wire(v) and v == type(v)() and bytes(v) == b""):
+        return "fresh"
+    return one(v)
+
+
+def obsp_kind(kind, v, schema):
+    if v is None:
+        return "N"
+    if kind == "ts":
+        return "t %d" % ((v - EPOCH) // US)
+    if kind == "dur":
+        return "d %d" % (v // US)
+    return obsp_msg(v, schema, int(kind[1:]))
+
+
+def obsp_msg(m, schema, ci):
+    md = schema[ci]
+    names = [f.name for f in md.fields]
+    cur = []
+    for g in range(md.ngroups):
+        n, _ = betterproto.which_one_of(m, "g%d" % g)
+        cur.append(str(names.index(n)) if n else "-")
+    ow = betterproto.serialized_on_wire(m)
+    items = []
+    for f in md.fields:
+        try:
+            v = getattr(m, f.name)
+        except AttributeError:
+            items.append("[AE]")
+            continue
+        items.append("[%s]" % obsp_value(f, v, schema))
+    return " ".join(["m %d %d %d" % (ci, int(ow), md.ngroups)] + cur + [str(len(md.fields))] + items)
+
+
 # ---------------------------------------------------------------- generators
 
 def gen_int(rng, ty):
